@@ -345,6 +345,7 @@ impl Indexable for ast::BangOperator {
                 let (list_range, list_typ) = value_types.next()?;
                 match list_typ? {
                     Type::List(elm_typ) => Some(*elm_typ.clone()),
+                    Type::Unknown => Some(Type::Unknown),
                     list_typ => {
                         ctx.error(list_range, format!("expected list, found {list_typ}"));
                         Some(Type::Unknown)
@@ -400,8 +401,14 @@ impl Indexable for ast::BangOperator {
                         Type::List(elm_typ)
                             if matches!(
                                 *elm_typ.clone(),
-                                Type::Any | Type::String | Type::Int | Type::Bits(_) | Type::Bit
+                                Type::Any
+                                    | Type::Unknown
+                                    | Type::String
+                                    | Type::Int
+                                    | Type::Bits(_)
+                                    | Type::Bit
                             ) => {}
+                        Type::Unknown => {}
                         _ => {
                             ctx.error(
                                 list_range,
@@ -477,6 +484,8 @@ impl Indexable for ast::BangOperator {
                     } else {
                         Some(Type::List(inner_type.clone()))
                     }
+                } else if list_type == Type::Unknown {
+                    Some(Type::Unknown)
                 } else {
                     ctx.error(list_range, format!("expected list, found {list_type}"));
                     Some(Type::Unknown)
